@@ -31,8 +31,8 @@ QUERIES = {'g1': [0, 1, 2], 'g2': [0, 1, 8], 'g3': [4, 5, 6, 7], 'g4': [9]}
 QFILES = {'g1': 'g1.fasta', 'g2': 'g2.fa', 'g3': 'g3.fna.gz', 'g4': 'dir.with.dots/g4'}
 # extra query genomes used by some checks: no k-mer at all (empty signature under every parameter set); names that contain their own
 # extension text elsewhere
-EXTRA_QUERIES = {'empty1': 'EMPTY', 'empty2': 'EMPTY', 'E.faecalis_V583': [0, 1, 9], 'P.fa.lciparum.fasta_x': [4, 5], '#7_isolate': [2, 3, 8]}      # a file name that looks like a comment
-EXTRA_QFILES = {'empty1': 'empty1.fasta', 'empty2': 'empty2.fa.gz', 'E.faecalis_V583': 'E.faecalis_V583.fa', 'P.fa.lciparum.fasta_x': 'P.fa.lciparum.fasta_x.fasta.gz', '#7_isolate': '#7_isolate.fasta'}
+EXTRA_QUERIES = {'empty1': 'EMPTY', 'empty2': 'EMPTY', 'E.faecalis_V583': [0, 1, 9], 'P.fa.lciparum.fasta_x': [4, 5], '#7_isolate': [2, 3, 8], 'E. coli K-12, substr. "MG1655"': [0, 5, 9]}      # a file name that looks like a comment
+EXTRA_QFILES = {'empty1': 'empty1.fasta', 'empty2': 'empty2.fa.gz', 'E.faecalis_V583': 'E.faecalis_V583.fa', 'P.fa.lciparum.fasta_x': 'P.fa.lciparum.fasta_x.fasta.gz', '#7_isolate': '#7_isolate.fasta', 'E. coli K-12, substr. "MG1655"': 'E. coli K-12, substr. "MG1655".fasta'}
 
 TAXA = [
 	dict(name='Genus one', parent=None, thr=0.95, rank='genus', ncbi_id=100),
@@ -136,9 +136,9 @@ def build(d, params=('P0',), ref_names=None, taxa=None, qlabels=None, pathlike_s
 	rsig_ids = list(ref_names)
 	if pathlike_sig_ids:
 		# stored IDs that look like paths / file names: a signature file's IDs are labels as they are
-		shapes = ['{}', 'batch7/{}.fa', '{}.fasta.gz', 'refseq/{}']
+		shapes = ['{}', 'batch7/{}.fa', '{}.fasta.gz', 'refseq/{}, substr. "MG1655"']          # the last: CSV metacharacters inside a label
 		labels = [shapes[i % 4].format(l) for i, l in enumerate(labels)]
-		rsig_ids = [(['genbank/{}.fna', '{}', '{}.gz'][i % 3]).format(r) for i, r in enumerate(ref_names)]
+		rsig_ids = [(['genbank/{}.fna', '{}, plasmid "p1"', '{}.gz'][i % 3]).format(r) for i, r in enumerate(ref_names)]
 	fx.qsig_ids, fx.rsig_ids = labels, rsig_ids
 	for pname in params:
 		ks = kspec_of(pname)
